@@ -441,8 +441,39 @@ def grown_table_case(ctx, rng):
                       {"stage": "grown table", "fmt": reported, "before": shown[:300], "after": again[:300]}, case)
 
 
+def same_limits_again_case(ctx, rng):
+    """a table whose limits hide nothing is printed; then a format with a break-by mark and the SAME limits typed again
+    is set (the break lines push the table over the limits): the format reported before the next print carries them"""
+    ctx.evaluated()
+    n = rng.randint(3, 5)
+    limits = (rng.randint(2, 3), rng.randint(1, 2))
+    if n > sum(limits) + 1:
+        n = sum(limits) + 1
+    recs = [(k, "b%d" % (k % 3), 1, "d") for k in range(n)]
+    lim = ";%d:%d" % limits
+    case = {"same_limits_again": True, "limits": list(limits), "records": n}
+    try:
+        t = PPTable(recs, fields=T.FIELDS, fmt="a:3,b:3" + lim, fields_types=T.mk_field_types(), footer="end")
+        T.render(t)
+        t.fmt = "a:3,b!:3" + lim
+        reported = str(t.fmt)
+        shown = T.render(t)
+        rebuilt = T.render(PPTable(recs, fields=T.FIELDS, fmt=reported, fields_types=T.mk_field_types(), footer="end"))
+    except Exception as err:
+        ctx.violation("table-operation-raises", {"stage": "same limits again", "type": type(err).__name__,
+                                                 "msg": str(err)[:200]}, case)
+        return
+    ctx.count("tables_given_the_same_limits_again_with_a_break_by_mark")
+    if rebuilt != shown:
+        ctx.violation("constructor-with-reported-format-renders-differently",
+                      {"stage": "same limits again", "when": "before-print", "fmt": reported, "table": shown[:300],
+                       "rebuilt": rebuilt[:300]}, case)
+
+
 def run_shard(ctx):
     for i in range(ctx.cases):
+        if i % 5 == 0:
+            same_limits_again_case(ctx, ctx.rng(i, "same-limits"))
         if i % 5 == 1:
             grown_table_case(ctx, ctx.rng(i, "grown"))
         if i % 5 == 2:
@@ -459,6 +490,11 @@ def run_shard(ctx):
 
 
 def replay(ctx, case):
+    if case.get("same_limits_again"):
+        import random
+        for k in range(200):
+            same_limits_again_case(ctx, random.Random(k))
+        return
     if case.get("grown_table"):
         import random
         for k in range(200):
